@@ -622,5 +622,9 @@ def tasks(tier, seed=0):
         for kind, kw in [("logistic", dict(features=["a", "b"], source_dimension=1)), ("linear", dict(features=["a", "b"], source_dimension=0)),
                          ("shared_speed_logistic", dict(features=["a", "b"], source_dimension=1)), ("joint", dict(features=["a"], source_dimension=0, nb_events=1))]:
             for s_ in ("set", "cached", "forked"):
-                ts.append(("history_task", dict(graph=cfg_name(kind, kw), start=s_, depth=3, alphabet=sorted({"put", "latent"}), model=(kind, kw))))
+                ts.append(("history_task", dict(graph=cfg_name(kind, kw), start=s_, depth=2, alphabet=sorted({"put", "latent"}), model=(kind, kw))))
+        # depth 3 on the logistic graph from the pending-fork start, split by first operation (each path re-executes a 50-node graph)
+        kind, kw = "logistic", dict(features=["a", "b"], source_dimension=1)
+        for f in range(45):
+            ts.append(("history_task", dict(graph=cfg_name(kind, kw), start="forked", depth=3, alphabet=sorted({"put", "latent"}), model=(kind, kw), first=f)))
     return ts
